@@ -187,3 +187,18 @@ def run(prop, tier, replay):
         "the logging IoDriver and the generated ST programs are the only instrumentation; everything below Runtime/TestHarness is real",
         "design-level invariants are checked on MCRuntimeCycle for the constants in the .cfg file",
         "overlapping output bindings are not generated (which variable wins is unspecified)"])
+
+
+def tag_rejections(work, n):
+    """For C03: run restart-biased RuntimeCycle scripts and return the rejected events whose only complaint is a
+    type tag (I/O latch, restart, power cycle, access-path write never change a variable's tag)."""
+    rnd = work / "rc_scripts.ndjson"
+    tpv(["cycle-gen", "--seed", seed(), "--runs", n, "--out", rnd, "--restarts", "1"])
+    scripts = read_ndjson(rnd)
+    tr = execute(scripts, work, "rc")
+    rows = read_ndjson(tr)
+    verdict, _ = validate_trace("RuntimeCycleTrace", tr, tag="trace-c03-rc")
+    if verdict["events"] != len(rows):
+        raise ToolError("trace validation did not consume every event")
+    out = [(b, rows[b["line"] - 1]) for b in verdict["bad"] if "type-tag" in b["why"]]
+    return out, len(split_runs(rows)), sum(1 for r in rows if r["a"] in ("Cycle", "Restart", "PowerCycle", "SetAccess"))
